@@ -86,6 +86,7 @@ package command
 //@   ensures err == nil && curLogFresh ==> isTxLog(ret0.Data) && txOfLog(ret0.Data) != nil && txOfLog(ret0.Data).Reference == script.Reference && (!lib("(time.Time).IsZero", script.Timestamp.Time) ==> txOfLog(ret0.Data).Timestamp == script.Timestamp) // C09
 //@   ensures err == nil && curLogFresh ==> lastVMResult != nil && txOfLog(ret0.Data).Postings == lastVMResult.Postings && txOfLog(ret0.Data).Metadata == lastVMResult.Metadata // C09
 //@   property C02 C06 C07 C11 C14 C09
+//@   alsofor C01
 
 //@ func (*command.Commander).CreateTransaction
 //@   requires commander != nil && commander.lastTXID != nil && idle() && headOK(commander)
